@@ -35,6 +35,21 @@ Oracle:
     when nothing else claims the key);
   * pair harnesses (two shipped items that share (port, protocol)): the set of open ports equals the ports of the
     running installed software.
+
+Harness variants (adapter parameters, all written into replay files):
+  rd        restart_duration given to the service (0, 1, 2)
+  power     (start_up_duration, shut_down_duration) of the host: (0,0) instantaneous, (1,1) timed
+  listener  another pre-installed, running service is configured with the documented option ``listen_on_ports`` =
+            {the port of the software under check}: the host's open-port filter then lets frames through although the
+            software under check is not running, so its own ``receive`` is what has to refuse them
+  init      applications that are not pre-installed start "absent" (installed through the request) or "running"
+            (installed and run through the Python API, as PrimaiteGame.from_config does)
+  api       offer the SoftwareManager.install/uninstall events in single-service harnesses
+  two suts  pair harness, see above
+
+Local machinery (not in engine.py): every adapter is registered in ``engine._ADAPTERS`` before the pool forks and the
+independent ``engine.bfs`` calls are issued from threads, so that the level barrier of one harness does not idle the
+shared worker pool; per-harness results are unchanged.
 """
 from __future__ import annotations
 
@@ -526,7 +541,7 @@ class LifecycleAdapter(engine.Adapter):
         outcome = [status, raised, node_after, [self._op(s, i) for i in range(len(self.suts))]]
         # ---- lifecycle conformance
         for i in range(len(self.suts)):
-            viols += self._conform(s, i, ev, status, node_before, node_after, ops_before[i])
+            viols += self._conform(s, i, ev, status, node_before, node_after, ops_before[i], raised)
         # ---- payloads
         if k == "payload":
             out, v = self._judge_payload(s, ev, calls, ops_before, node_before)
@@ -539,7 +554,7 @@ class LifecycleAdapter(engine.Adapter):
         return outcome, _dedup(viols)
 
     # ------------------------------------------------------------------ reference model, stepped in lock-step
-    def _conform(self, s, i, ev, status, node_before, node_after, op_before):
+    def _conform(self, s, i, ev, status, node_before, node_after, op_before, raised=None):
         name, kind = self.suts[i], self.cat[i]["kind"]
         ref = s.refs[i]
         k = ev[0]
@@ -615,6 +630,10 @@ class LifecycleAdapter(engine.Adapter):
                 # software.rst: "service is immediately ran after install" (a node that is not ON runs nothing)
                 want = ("RUNNING" if node_before == "ON" else "STOPPED") if kind == "service" else "CLOSED"
                 clause = "install_leaves_documented_state"
+                if raised:
+                    # SoftwareManager.install raised (C13 does not say it never does): nothing may be half-installed,
+                    # which the registry invariants check; the item is then either absent or in the documented state
+                    want_set = (want, "ABSENT")
             else:
                 want_set = SVC_STATES + ("CLOSED",)  # installing twice: judged by the registry invariants only
         elif k == "api_uninstall" and mine:
